@@ -10,6 +10,7 @@ Legs
 from __future__ import annotations
 
 import io
+import os
 import math
 
 import numpy as np
@@ -79,6 +80,19 @@ def check_rt(recipe) -> list[Fail]:
             if recipe.get("blank_name"):
                 obj.name = ["", " ", "\t"][recipe["blank_name"] - 1]      # an empty / blank name gives a blank comment line
             text = obj.dumps_xyz()
+            via = recipe.get("via", 0)
+            if via:
+                # the ensemble reaches the disk through the module-level writer (path, mode "w" or "a" on a fresh file) and is read from there
+                import tempfile
+                fd_, p_ = tempfile.mkstemp(suffix=".xyz", dir=os.environ.get("VF_SCRATCH") or None)
+                os.close(fd_)
+                os.unlink(p_)
+                try:
+                    ml.dump(obj, p_, "xyz", mode="w" if via == 1 else "a")
+                    text = open(p_).read()
+                finally:
+                    if os.path.exists(p_):
+                        os.unlink(p_)
             if entry == "ens":
                 back = ml.ConformerEnsemble.loads_xyz(text)
                 if back.n_conformers != obj.n_conformers:
@@ -180,6 +194,15 @@ def check_multi(recipe) -> list[Fail]:
                 frames = ml.Molecule.loads_all_xyz(text)
             elif entry == "stream":
                 frames = ml.Structure.load_all_xyz(io.StringIO(text))
+            elif entry == "handle":
+                # ONE open handle read piecemeal: the first frame through the generator, the rest from where the handle stands
+                fh = io.StringIO(text)
+                frames = [next(ml.CartesianGeometry.yield_from_xyz(fh))] + list(ml.CartesianGeometry.load_all_xyz(fh))
+            elif entry == "positioned":
+                # a handle that stands at the beginning of the SECOND geometry: reading starts there
+                fh = io.StringIO(text)
+                fh.seek(len(geoms[0].dumps_xyz()))
+                frames = [geoms[0]] + list(ml.Molecule.load_all_xyz(fh))
             else:
                 frames = list(ml.CartesianGeometry.yield_from_xyz(io.StringIO(text)))
             if len(frames) != len(geoms):
@@ -231,7 +254,7 @@ def strat_multi(tier):
             else:
                 other = draw(chem.molecule_recipe(max_atoms=6, max_bonds=0, attribs=False, mol2_safe=True, min_atoms=0).map(_xyzify))
             mols.append(other)
-        return {"mols": mols, "entries": draw(st.lists(st.sampled_from(["geom", "mol", "stream", "yield"]), min_size=1, max_size=2, unique=True))}
+        return {"mols": mols, "entries": draw(st.lists(st.sampled_from(["geom", "mol", "stream", "yield", "handle", "positioned"]), min_size=1, max_size=2, unique=True))}
 
     return case()
 
@@ -271,7 +294,7 @@ def strat_rt(tier):
     ensr = chem.ensemble_recipe(max_atoms=8, max_bonds=4, max_conf=5, attribs=False, mol2_safe=True).filter(lambda r: len(r["confs"]) >= 1).map(_xyzify)
     return st.one_of(
         st.fixed_dictionaries({"kind": st.sampled_from(["CartesianGeometry", "Structure", "Molecule"]), "mol": molr, "entry": st.sampled_from(["loads", "loads", "load_stream", "loads_all"]), "fmt": st.integers(0, len(FMTS) - 1), "again": st.booleans(), "blank_name": st.sampled_from([0, 0, 0, 1, 2, 3])}),
-        st.fixed_dictionaries({"kind": st.just("ConformerEnsemble"), "mol": ensr, "entry": st.sampled_from(["ens", "ens", "all_mol", "all_geom", "all_stream"]), "blank_name": st.sampled_from([0, 0, 0, 1, 2, 3])}),
+        st.fixed_dictionaries({"kind": st.just("ConformerEnsemble"), "mol": ensr, "entry": st.sampled_from(["ens", "ens", "all_mol", "all_geom", "all_stream"]), "blank_name": st.sampled_from([0, 0, 0, 1, 2, 3]), "via": st.sampled_from([0, 0, 1, 2])}),
         st.fixed_dictionaries({"kind": st.just("Substructure"), "mol": molr, "entry": st.just("loads"), "sub": st.lists(st.integers(0, 60), min_size=1, max_size=8)}),
     )
 
